@@ -1,0 +1,11 @@
+//go:build verif
+
+package mono
+
+import "time"
+
+// VerifAdvance makes the monotonic clock jump forward by d.  It must not
+// be called concurrently with anything that reads the clock.
+func VerifAdvance(d time.Duration) {
+	origin = origin.Add(-d)
+}
